@@ -1291,7 +1291,18 @@ class FnEmitter:
             if base.startswith('llvm.memcpy.') or base.startswith('llvm.memmove.') or base.startswith('llvm.memset.'):
                 if self.hook('hook_stores'): ls.append('vf_on_write(%s, %s);' % (A[0], A[2]))
                 if self.hook('hook_loads') and not base.startswith('llvm.memset.'): ls.append('vf_on_read(%s, %s);' % (A[1], A[2]))
-            if base.startswith('llvm.memcpy.'): ls.append('vf_memcpy(%s, %s, %s);' % (A[0], A[1], A[2]))
+            # constant-length transfers (struct copies / zero-initialisation emitted by clang) are expanded to straight-line
+            # byte accesses: no loop to unwind, and the solver sees concrete offsets
+            klen = args[2][1][1] if (base.startswith(('llvm.memcpy.', 'llvm.memmove.', 'llvm.memset.')) and args[2][1][0] == 'int') else None
+            if klen is not None and klen <= 64:
+                self.tmpn += 1; tn = self.tmpn
+                if base.startswith('llvm.memset.'):
+                    ls.append('{ uint8_t *md%d = %s; uint8_t mv%d = %s; %s }' % (tn, A[0], tn, A[1], ' '.join('md%d[%d] = mv%d;' % (tn, i, tn) for i in range(klen))))
+                else:
+                    ls.append('{ uint8_t *md%d = %s; uint8_t *ms%d = %s; %s %s }' % (tn, A[0], tn, A[1],
+                              ' '.join('uint8_t mt%d_%d = ms%d[%d];' % (tn, i, tn, i) for i in range(klen)),
+                              ' '.join('md%d[%d] = mt%d_%d;' % (tn, i, tn, i) for i in range(klen))))
+            elif base.startswith('llvm.memcpy.'): ls.append('vf_memcpy(%s, %s, %s);' % (A[0], A[1], A[2]))
             elif base.startswith('llvm.memmove.'): ls.append('vf_memmove(%s, %s, %s);' % (A[0], A[1], A[2]))
             elif base.startswith('llvm.memset.'): ls.append('vf_memset(%s, %s, %s);' % (A[0], A[1], A[2]))
             elif base.startswith('llvm.lifetime.') or base.startswith('llvm.experimental.noalias') or base.startswith('llvm.dbg.') or base.startswith('llvm.invariant.'):
